@@ -21,6 +21,16 @@ class CFG:
             if blk.get('cl'):
                 continue
             self.succ[i] = self._succ(i, blk)
+        # edges that no execution from the entry can take (the tested local is known to hold another variant on every
+        # path that reaches the switch, see _vk_init) are removed from the graph itself, so that dominators, loops and
+        # topological orders agree with the path-sensitive reachability
+        self._vk = None
+        self._vk_init()
+        if self._vk[1]:
+            taken = self._taken_edges()
+            for i in range(n):
+                if self.succ[i]:
+                    self.succ[i] = [s_ for s_ in self.succ[i] if (i, s_) in taken]
         self.pred = [[] for _ in range(n)]
         for i in range(n):
             for s in self.succ[i]:
@@ -107,6 +117,16 @@ class CFG:
         def plain(o):
             pl = o.get('mv') or o.get('cp') if isinstance(o, dict) else None
             return pl['l'] if pl is not None and 'p' not in pl else None
+
+        def payload_of(o):
+            # `(L as Variant).0`
+            pl = o.get('mv') or o.get('cp') if isinstance(o, dict) else None
+            if pl is None or 'p' not in pl or len(pl['p']) != 2:
+                return None
+            a_, b_ = pl['p']
+            if isinstance(a_, dict) and 'dc' in a_ and isinstance(b_, dict) and b_.get('f') == 0:
+                return pl['l']
+            return None
         eff = []
         sw = {}
         for bi, blk in enumerate(self.blocks):
@@ -120,6 +140,13 @@ class CFG:
                     continue
                 if r['k'] == 'agg' and r.get('ak') == 'adt' and 'dv' in r:
                     es.append(('set', l, int(r['dv'])))
+                    # the payload of a one-field variant carries its own knowledge (`Poll::Ready(res)`, `Some(res)`)
+                    if len(r.get('ops', [])) == 1 and plain(r['ops'][0]) is not None and plain(r['ops'][0]) not in bad:
+                        es.append(('copy', ('p', l), plain(r['ops'][0])))
+                    else:
+                        es.append(('kill', ('p', l)))
+                elif r['k'] == 'use' and payload_of(r['a']) is not None and payload_of(r['a']) not in bad:
+                    es.append(('copy', l, ('p', payload_of(r['a']))))
                 elif r['k'] == 'use' and 'c' in r['a'] and r['a'].get('ty') == 'bool' and str(r['a'].get('v')) in ('0', '1'):
                     es.append(('set', l, int(str(r['a']['v']))))
                 elif r['k'] == 'use' and plain(r['a']) is not None and plain(r['a']) not in bad:
@@ -128,6 +155,8 @@ class CFG:
                     es.append(('copy', l, r['p']['l']))
                 else:
                     es.append(('kill', l))
+                if not (r['k'] == 'agg' and r.get('ak') == 'adt' and 'dv' in r):
+                    es.append(('kill', ('p', l)))
             t = blk['t']
             if t['k'] == 'call' and 'p' not in t['d'] and t['d']['l'] not in bad:
                 l = t['d']['l']
@@ -175,6 +204,7 @@ class CFG:
                     if e[0] in ('copy', 'flip') and e[1] in rel and e[2] not in rel:
                         rel.add(e[2])
                         changed = True
+        # (payload keys ('p', l) are relevant when something relevant is copied from them)
         self._vk = ([[e for e in es if e[1] in rel] for es in eff], sw, rel)
 
     def _vk_step(self, b, K):
@@ -211,6 +241,25 @@ class CFG:
         if v in listed:
             return listed[v] == s
         return s == other
+
+    def _taken_edges(self):
+        """edges taken by some (block, knowledge) state reachable from the entry"""
+        taken = set()
+        states = {(0, ())}
+        dq = deque([(0, {})])
+        while dq:
+            b, K = dq.popleft()
+            K2 = self._vk_step(b, K)
+            for s in self.succ[b]:
+                if not self._vk_allows(b, s, K2):
+                    continue
+                taken.add((b, s))
+                key = (s, tuple(sorted(K2.items(), key=repr)))
+                if key in states:
+                    continue
+                states.add(key)
+                dq.append((s, K2))
+        return taken
 
     # -- reachability ---------------------------------------------------------------------------
     def reach(self, starts, cut_blocks=(), cut_edges=(), stop_blocks=()):
@@ -254,7 +303,7 @@ class CFG:
             for s in self.succ[b]:
                 if s in cut_blocks or (b, s) in cut_edges or not self._vk_allows(b, s, K2):
                     continue
-                key = (s, tuple(sorted(K2.items())))
+                key = (s, tuple(sorted(K2.items(), key=repr)))
                 if key in states:
                     continue
                 states.add(key)
